@@ -199,7 +199,9 @@ Proof.
     destruct (zassoc size (cd_enc_pad cd)); [|discriminate].
     apply np_bind; [now apply IH|]. intros [[[[b m] w] st'] bit'] _. reflexivity.
   - destruct args as [|a args']; [discriminate|]. apply andb_true_iff in Ht. destruct Ht as [Hta Ht].
-    rewrite (enc_loop_nonpad sjis_enc cd) by assumption. cbv zeta.
+    rewrite (enc_loop_nonpad sjis_enc cd) by assumption.
+    destruct (cd_mask_overflow_checked cd && a_reg a && contributes cd e && (bit =? 0)); [reflexivity|].
+    cbv zeta.
     destruct (contributes cd e); [destruct (always_imm cd e && negb ((if a_reg a then bit else 0) =? 0))|];
       (apply np_bind; [now apply encode_field_np|]; intros [b0 st1] _;
        apply np_bind; [now apply IH|]; intros [[[[b m] w] st'] bit'] _; reflexivity).
